@@ -4,7 +4,7 @@
 # own test suites still PASS with it, demo PASSES without it. Writes /verif/seeded/<ID>-<mN>/.
 set -u
 ID=$1; M=$2
-W=/tmp/seed-$ID; S=/tmp/seed-out/$ID
+W=/tmp/seed-$ID; S=${SEED_SRC:-/tmp/seed-out}/$ID
 export CARGO_TARGET_DIR=$W/target CARGO_NET_OFFLINE=true
 cd $W || exit 2
 git checkout -q -- . ; git clean -fdq crates wheel >/dev/null 2>&1
